@@ -3,6 +3,10 @@ package lens
 import (
 	"bytes"
 	"context"
+	"crypto/sha1"
+	"crypto/sha256"
+	"crypto/x509"
+	"encoding/hex"
 	"errors"
 	"fmt"
 	"math/rand/v2"
@@ -245,7 +249,7 @@ func (l c05) Exec(env *core.Env) *core.Result {
 						if n > 1 && i == n-1 {
 							tok = fmt.Sprintf("tok%d", n-1)
 						}
-						has := strings.Contains(msg, "CN="+tok+",") || strings.Contains(msg, "CN="+tok+"\"") || strings.HasSuffix(msg, "CN="+tok)
+						has := c05Names(msg, tok, chain.X509()[i])
 						if has && r == revresult.ResultRevoked {
 							named = true
 						}
@@ -288,4 +292,34 @@ func (l c05) Exec(env *core.Env) *core.Result {
 	core.FinishSim(res, sim)
 	core.ReportPanics(res, sim, "C05")
 	return res
+}
+
+// c05Names reports whether an error message names the certificate: by its common name (as a whole
+// token), its serial number (decimal or hex) or a SHA-256 / SHA-1 thumbprint (hex, either case).
+// How a certificate is named is the implementation's choice; that one is named is the statement.
+func c05Names(msg, cn string, c *x509.Certificate) bool {
+	for i := 0; ; {
+		j := strings.Index(msg[i:], cn)
+		if j < 0 {
+			break
+		}
+		end := i + j + len(cn)
+		if end == len(msg) || msg[end] < '0' || msg[end] > '9' {
+			return true
+		}
+		i = end
+	}
+	low := strings.ToLower(msg)
+	s256, s1 := sha256.Sum256(c.Raw), sha1.Sum(c.Raw)
+	for _, t := range []string{hex.EncodeToString(s256[:]), hex.EncodeToString(s1[:])} {
+		if strings.Contains(low, t) {
+			return true
+		}
+	}
+	if c.SerialNumber != nil && c.SerialNumber.BitLen() > 32 {
+		if strings.Contains(msg, c.SerialNumber.String()) || strings.Contains(low, c.SerialNumber.Text(16)) {
+			return true
+		}
+	}
+	return false
 }
